@@ -9,6 +9,7 @@ $(COQDIR)/Makefile.coq: $(COQDIR)/_CoqProject
 	cd $(COQDIR) && coq_makefile -f _CoqProject -o Makefile.coq
 
 coq: $(COQDIR)/Makefile.coq
+	mkdir -p ocaml/gen
 	cd $(COQDIR) && timeout 2400 $(MAKE) -f Makefile.coq -j16 --no-print-directory
 
 ocaml/modelrun: ocaml/gen/model.ml ocaml/modelrun.ml
